@@ -59,6 +59,9 @@ class Contract(object):
     self.opq_eq, self.opq_eq_const, self.opq_lt = {}, {}, {}
     self.opq_isinstance, self.opq_methods, self.str_methods, self.map_shapes = {}, {}, {}, {}
     self.uf = {}
+    self.obj_lt = {}
+    self.custom_concretize = None          # callable(contract, ob, model, ev) -> args dict
+    self.raw_axioms = None                 # callable(interp) -> [z3 Bool] assumed
     self._loc = None
     self._def_asts = {}
 
@@ -167,6 +170,9 @@ def run_paths(contract, registry=None, concrete_args=None, max_paths=4000, timeo
         ip.old_env.setdefault(k, v)
       for name, clause in contract.axioms.items():
         ctx.assume(ip._bt(ip.eval_spec(clause, dict(ip.old_env))))
+      if contract.raw_axioms is not None:
+        for ax in contract.raw_axioms(ip):
+          ctx.assume(ax)
       for name, clause in contract.requires.items():
         ctx.assume(ip._bt(ip.eval_spec(clause, dict(ip.old_env))))
       fr = _function_frame(ip, contract, fv, args)
@@ -220,6 +226,8 @@ def run_paths(contract, registry=None, concrete_args=None, max_paths=4000, timeo
 def concretize_args(contract, ob, model):
   """Builds plain Python arguments from a counter-model (for replay on the real code)."""
   ev = lambda t: model.eval(t, model_completion=True)
+  if contract.custom_concretize is not None:
+    return contract.custom_concretize(contract, ob, model, ev)
   out = {}
   later = []
   for name, shape in contract.params.items():
@@ -275,15 +283,17 @@ def replay(contract, ob, model):
   if contract.native is None:
     rec.update(replayed=False, why="no native runner for this contract")
     return rec
+  mkenv = getattr(contract, "native_env", None) or (lambda a: dict(a))
   old = copy.deepcopy(args)
   try:
+    env0 = mkenv(old)
     for name, clause in list(contract.requires.items()) + list(contract.axioms.items()):
-      if not eval_concrete(contract, clause, dict(old), dict(old)):
+      if not eval_concrete(contract, clause, dict(env0), dict(env0)):
         rec.update(replayed=False, why="model arguments violate requires/axiom %s "
                    "(quantifier instantiation incomplete)" % name)
         return rec
   except Exception as e:
-    rec.update(replayed=False, why="could not evaluate requires natively: %s" % e)
+    rec.update(replayed=False, why="could not evaluate requires natively: %r" % (e,))
     return rec
   try:
     result = contract.native(args)
@@ -294,28 +304,36 @@ def replay(contract, ob, model):
   rec["raised"] = repr(raised)
   kind = ob.kind.split(":")[0]
   try:
-    if kind == "post":
-      if raised is not None:
-        rec.update(replayed=False, why="real code raised instead of returning")
-        if type(raised).__name__ not in contract.raises:
-          rec.update(replayed=True, why="real code raised an undeclared exception")
-        return rec
-      cname = ob.name.split(".", 1)[1]
-      env = dict(args); env["result"] = result
-      ok = eval_concrete(contract, contract.ensures[cname], env, old)
-      rec.update(replayed=not ok, why="clause evaluated natively: %s" % ok)
-    elif kind == "no-raise":
-      rec.update(replayed=raised is not None and type(raised).__name__ not in contract.raises,
-                 why="undeclared exception natively: %r" % (raised,))
-    elif kind == "raise-when":
-      if raised is None:
-        rec.update(replayed=False, why="real code did not raise")
+    if raised is not None:
+      declared = None
+      for k in type(raised).__mro__:
+        if k.__name__ in contract.raises:
+          declared = contract.raises[k.__name__]
+          break
+      if declared is None:
+        rec.update(replayed=True, why="real code raised an undeclared exception: %r" % (raised,))
       else:
-        clause = contract.raises.get(type(raised).__name__)
-        ok = eval_concrete(contract, clause, dict(old), old) if isinstance(clause, str) else True
+        ok = eval_concrete(contract, declared, dict(env0), dict(env0)) \
+            if isinstance(declared, str) else True
         rec.update(replayed=not ok, why="raise condition evaluated natively: %s" % ok)
+      return rec
+    if kind == "raise-when" or kind == "no-raise":
+      rec.update(replayed=False, why="real code did not raise on the model's arguments")
+      return rec
+    env = mkenv(args); env["result"] = result
+    failed = []
+    for cname, clause in contract.ensures.items():
+      if not eval_concrete(contract, clause, dict(env), dict(env0)):
+        failed.append(cname)
+    rec["clauses_false_natively"] = failed
+    if kind == "post":
+      cname = ob.name[len(contract.prefix) + 1:]
+      rec.update(replayed=cname in failed or bool(failed),
+                 why="clauses evaluated natively on the real result; false: %s" % failed)
     else:
-      rec.update(replayed=False, why="intermediate obligation (%s): no direct native replay" % kind)
+      rec.update(replayed=bool(failed),
+                 why="intermediate obligation (%s); real result on the model's arguments makes "
+                     "these clauses false: %s" % (kind, failed))
   except Exception as e:
     rec.update(replayed=False, why="native evaluation of the clause failed: %r" % (e,))
   return rec
